@@ -79,7 +79,7 @@ func (s *SourceMaps) URI(i int) string {
 // node -> sources -> SourceMap -> lexical entries {element, value};
 // BaseUnitSourceInformation {rootLocation, additionalLocations -> {location, elements}}).
 func (s *SourceMaps) Attach(g *Graph) *Graph {
-	out := &Graph{}
+	out := &Graph{Bulk: g.Bulk, BulkBlank: g.BulkBlank}
 	for _, n := range g.Nodes {
 		c := &Node{ID: n.ID, Types: append([]string(nil), n.Types...), Props: map[string][]Val{}}
 		for k, v := range n.Props {
